@@ -16,6 +16,26 @@ TOKEN_ALPHABET = [
     '(', ')', '<>', '>=', '<=', '>', '<', '!', '=', '%', 'é', '漢', '\x00', '\ud800', '😀', 'E', 'e5',
 ]
 
+# Functions whose cost at C level grows with the *magnitude* of a numeric argument (big-int power,
+# factorial, 10**digits, rjust(places)).  A line-step clock cannot see inside one C call, so their
+# arguments are kept to leaves (literals <= 4 digits, pool values): see DESIGN 2.2 / 8.
+RISKY = frozenset(['FACT', 'FACTDOUBLE', 'POWER', 'ROUNDUP', 'ROUNDDOWN', 'ROUND', 'BASE', 'DEC2HEX', 'PV'])
+_RISKY_RE = re.compile(r'\b(%s)\s*\(' % '|'.join(sorted(RISKY)), re.I)
+_POW_RE = re.compile(r'([0-9]+)(\s*\^\s*)([0-9]+)')
+_DIGITS_RE = re.compile(r'[0-9]{6,}')
+
+
+def _tame_pow(m):
+    b, mid, e = m.group(1), m.group(2), m.group(3)
+    return b[:5] + mid + e[:2]
+
+
+def tame(text):
+    """Keep literal NUMBER^NUMBER small (the only magnitude-driven C-level work reachable from
+    token soups): base <= 5 digits, exponent <= 2 digits."""
+    return _POW_RE.sub(_tame_pow, text)
+
+
 _FN_INFO = None
 
 
@@ -66,6 +86,10 @@ def _codepoint(rng):
 
 
 def g1_unicode(rng):
+    return tame(_g1_unicode(rng))
+
+
+def _g1_unicode(rng):
     n = rng.choice([0, 1, 2, 3, 5, 8, 13, 30, 80, 200]) if rng.random() < 0.5 else rng.randrange(0, 40)
     chars = []
     for _ in range(n):
@@ -79,7 +103,7 @@ def g1_unicode(rng):
 # --- G2 -----------------------------------------------------------------------
 def g2_soup(rng):
     n = rng.randrange(1, 25) if rng.random() < 0.8 else rng.randrange(25, 120)
-    return ''.join(rng.choice(TOKEN_ALPHABET) for _ in range(n))
+    return tame(''.join(rng.choice(TOKEN_ALPHABET) for _ in range(n)))
 
 
 # --- G3 -----------------------------------------------------------------------
@@ -162,11 +186,12 @@ def builtin_call(rng, env, depth, name=None):
         n = rng.randrange(0, 5)
     sep = ',' if rng.random() < 0.9 else rng.choice([';', '\\'])
     args = []
+    sub = 0 if name in RISKY else depth - 1
     for _ in range(n):
         if rng.random() < 0.04:
             args.append('')
         else:
-            args.append(gen_expr(rng, env, depth - 1))
+            args.append(gen_expr(rng, env, sub))
     return '%s(%s)' % (name, sep.join(args))
 
 
@@ -224,7 +249,7 @@ def gen_expr(rng, env, depth):
 def g3_tree(rng, env, depth=None):
     if depth is None:
         depth = rng.choice([1, 2, 2, 3, 3, 4])
-    return gen_expr(rng, env, depth)
+    return tame(gen_expr(rng, env, depth))
 
 
 # --- G4 -----------------------------------------------------------------------
@@ -232,6 +257,32 @@ _TOK = re.compile(r'"[^"]*"|\'[^\']*\'|[A-Za-z_.$][A-Za-z_0-9.$]*|[0-9]+|<>|>=|<
 
 
 def g4_damage(rng, text):
+    out = tame(_g4_damage(rng, text))
+    if _RISKY_RE.search(out) and (_DIGITS_RE.search(out) or _risky_args_changed(text, out)):
+        return out[:rng.randrange(len(out) + 1)] if _safe_prefix(text, out) else text[:rng.randrange(len(text) + 1)]
+    return out
+
+
+def _risky_spans(text):
+    """Text of every magnitude-sensitive call, from its name to the end of the formula."""
+    return [text[m.start():] for m in _RISKY_RE.finditer(text)]
+
+
+def _risky_args_changed(orig, out):
+    # conservative: any change after the first magnitude-sensitive call name counts
+    a, b = _risky_spans(orig), _risky_spans(out)
+    if not b:
+        return False
+    if not a:
+        return True
+    return not a[0].startswith(b[0])
+
+
+def _safe_prefix(orig, out):
+    return orig.startswith(out)
+
+
+def _g4_damage(rng, text):
     toks = _TOK.findall(text)
     if not toks:
         return rng.choice(['(', ')', '{', '"', ','])
